@@ -309,68 +309,6 @@ theorem closed_read_returns (s : LSt) (hc : s.closed = true) (hr : s.r = .inRead
   refine ⟨{ r := .done, c := c, lock := .none, closed := true, avail := av }, ?_, rfl, rfl⟩
   simp [readerStep]
 
-def cprog : CPc → Nat
-  | .idle => 0 | .waitLock => 0 | .closing => 1 | .done => 2
-
-def nCloser : List Bool → Nat
-  | [] => 0
-  | true :: r => nCloser r
-  | false :: r => nCloser r + 1
-
-/-- invariant of forced close from a blocked read -/
-def finv (s : LSt) : Prop :=
-  (s.r = .inRead ∨ s.r = .done) ∧ s.c ≠ .waitLock ∧ (s.c = .done → s.closed = true)
-
-theorem finv_reader (s : LSt) (h : finv s) :
-    finv ((readerStep s).getD s) ∧ cprog ((readerStep s).getD s).c = cprog s.c := by
-  rcases s with ⟨r, c, l, cl, av⟩
-  rcases h with ⟨hr, hc, hd⟩
-  simp only at hr hc hd
-  rcases hr with hr | hr <;> subst hr
-  · by_cases hx : (cl || av) = true
-    · simp [readerStep, hx, finv]; exact ⟨hc, hd⟩
-    · simp [readerStep, hx, finv]; exact ⟨hc, hd⟩
-  · simp [readerStep, finv]; exact ⟨hc, hd⟩
-
-theorem finv_closer (s : LSt) (h : finv s) :
-    finv ((closerStep true s).getD s) ∧
-      cprog ((closerStep true s).getD s).c = min 2 (cprog s.c + 1) ∧
-      ((closerStep true s).getD s).r = s.r := by
-  rcases s with ⟨r, c, l, cl, av⟩
-  rcases h with ⟨hr, hc, hd⟩
-  simp only at hr hc hd
-  cases c
-  · simp [closerStep, finv, cprog]; exact hr
-  · exact absurd rfl hc
-  · simp [closerStep, finv, cprog]; exact hr
-  · simp [closerStep, finv, cprog]; exact ⟨hr, hd rfl⟩
-
-theorem force_sched (s : LSt) (h : finv s) (sched : List Bool) :
-    finv (runSched true s sched) ∧
-      cprog (runSched true s sched).c = min 2 (cprog s.c + nCloser sched) ∧
-      (s.r = .done → (runSched true s sched).r = .done) := by
-  induction sched generalizing s with
-  | nil => simp [runSched, nCloser, h]; cases s.c <;> simp [cprog]
-  | cons b rest ih =>
-    cases b with
-    | true =>
-      have hr := finv_reader s h
-      have := ih _ hr.1
-      simp only [runSched, nCloser]
-      refine ⟨this.1, by rw [this.2.1, hr.2], ?_⟩
-      intro hd
-      apply this.2.2
-      rcases s with ⟨r, c, l, cl, av⟩
-      simp only at hd; subst hd
-      simp [readerStep]
-    | false =>
-      have hc := finv_closer s h
-      have := ih _ hc.1
-      simp only [runSched, nCloser]
-      refine ⟨this.1, ?_, ?_⟩
-      · rw [this.2.1, hc.2.1]; omega
-      · intro hd; apply this.2.2; rw [hc.2.2]; exact hd
-
 /-- **force close unblocks, for every schedule**: start with a read blocked inside
 `Transport.read` (holding `implLock`, nothing to return). Under *any* interleaving of reader and
 closer moves in which `Close(true)` got its two moves (enter, close the descriptor), the next reader
@@ -435,10 +373,6 @@ theorem nonforce_close_waits (sched : List Bool) :
   rcases key blockedRead (Or.inl rfl) sched with h | h <;> rw [h] <;> simp [blockedRead]
 
 /-! ## A pipe delivery is a segmentation of the stream (`session_over_pipe`) -/
-
-/-- `cs` is a segmentation of `stream`: non-empty pieces whose concatenation is the stream -/
-def IsSegmentation (cs : List Bytes) (stream : Bytes) : Prop :=
-  cs.flatten = stream ∧ ∀ c ∈ cs, c ≠ []
 
 /-- **session_over_pipe (1)**: the chunks the channel layer receives over any history are a
 segmentation of a prefix of `ib ++ sent`, and of the whole of it once drained. Hence every theorem
